@@ -218,8 +218,32 @@ def extra_checks(tier, seed):
     cases, bad = hsm.async_stream('C03a', seed, n, p_parallel=0.4, single_scope=False, max_events=2)
     multi = sum(1 for c in cases if _multi_scope_events(c))
     detail = dict(cases=len(cases), disagreements=len(bad), cases_with_an_event_in_several_scopes=multi)
+    out = []
     if bad:
         c, m, i = bad[0]
-        return [('async_dispatch', False, detail,
-                 dict(kind='counterexample', stream='HierarchicalAsyncMachine dispatch, mixed scopes', case=c, model_obs=m, impl_obs=i))]
-    return [('async_dispatch', True, detail, {})]
+        out.append(('async_dispatch', False, detail,
+                    dict(kind='counterexample', stream='HierarchicalAsyncMachine dispatch, mixed scopes', case=c, model_obs=m, impl_obs=i)))
+    else:
+        out.append(('async_dispatch', True, detail, {}))
+    # systematic sweep: every (setup state, source, destination or internal, declaring scope) combination on a
+    # catalogue of state trees - quick tier: a seeded sample, thorough tier: all of them (exhaustive for the catalogue)
+    import random
+    allc = hsm.systematic_cases()
+    if tier == 'quick':
+        cases = random.Random('C03s-%d' % seed).sample(allc, 2500)
+    else:
+        cases = allc
+    for k, c in enumerate(cases):
+        c['cls'] = CLASSES[k % len(CLASSES)]
+    mo, io = hsm.run_pairs(cases)
+    bad = [(c, m, i) for c, m, i in zip(cases, mo, io) if m != i]
+    executed = sum(1 for m in mo if isinstance(m, list) and m[0] == 1 and m[2] and m[2][-1][1] == [0, True])
+    detail = dict(catalogue=len(allc), cases=len(cases), exhaustive_for_the_catalogue=(len(cases) == len(allc)),
+                  last_event_executed=executed, disagreements=len(bad))
+    if bad:
+        c, m, i = bad[0]
+        out.append(('systematic_scope_source_destination', False, detail,
+                    dict(kind='counterexample', stream='systematic (setup, source, destination, scope) sweep', case=c, model_obs=m, impl_obs=i)))
+    else:
+        out.append(('systematic_scope_source_destination', True, detail, {}))
+    return out
